@@ -437,3 +437,25 @@ func (e *Engine) selectStmt(fr *frame, instr *ssa.Select) Value {
 	}
 	return res
 }
+
+// settle lets every other goroutine run until it blocks or exits.
+func (e *Engine) settle() {
+	if e.sched == nil {
+		return
+	}
+	s := e.sched
+	cur := s.cur
+	others := func() bool {
+		for _, g := range s.gs {
+			if g != cur && !g.done && (g.blocked == nil || !g.blocked()) {
+				return true
+			}
+		}
+		return false
+	}
+	for others() {
+		cur.blocked = others
+		s.yield()
+		cur.blocked = nil
+	}
+}
